@@ -27,7 +27,9 @@
                         belongs to the value                                                               [repaired, f5c6e49]
      ZeroHdrExtraCrlf   the serialiser writes start line CRLF CRLF CRLF for a request without fields; only the
                         auxiliary Inv_SerialExact sees it (request equality, which is what C02 states, holds)
-     BodySingleRead, SplitAllColons, ValueLowercased, XffFirstIsOrigin, LineNoAccumulate:
+     BodySingleRead, SplitAllColons, ValueLowercased, XffFirstIsOrigin, LineNoAccumulate,
+     NameCaseSensitive (field names not lower-cased), CookieLastEq (cookie-pair split at the LAST "="),
+     XffStopAtGarbage (entries after the first non-address ignored):
                         plausible regressions (DESIGN 8a) used to show that the invariants are not vacuous
 
    TLC note: `-coverage 1` does not terminate on this module (cost-model construction over the nested
@@ -166,7 +168,8 @@ Code_FieldLine(full) ==
       v0   == IF "SplitAllColons" \in Dev /\ c2 # 0 THEN SubSeq(rawv, 1, c2 - 1) ELSE rawv
       v1   == IF "UnicodeTrimStart" \in Dev THEN UnicodeTrimL(v0) ELSE TrimL(v0)
       v    == IF "ValueLowercased" \in Dev THEN LowerSeq(v1) ELSE v1
-  IN [ok |-> n >= 2 /\ full[n - 1] = CR /\ full[n] = LF /\ c # 0, field |-> << LowerSeq(SubSeq(l, 1, c - 1)), v >>]
+      nm   == IF "NameCaseSensitive" \in Dev THEN SubSeq(l, 1, c - 1) ELSE LowerSeq(SubSeq(l, 1, c - 1))
+  IN [ok |-> n >= 2 /\ full[n - 1] = CR /\ full[n] = LF /\ c # 0, field |-> << nm, v >>]
 
 P_HeaderLine ==
   /\ pc = "hdr" /\ Buffered > 0 /\ NextLf # 0 /\ FullLine # <<CR, LF>>
@@ -176,10 +179,35 @@ P_HeaderLine ==
   /\ cons' = NextLf /\ line' = <<>>
   /\ UNCHANGED <<bvars, pos, need, svars>>
 
+\* Address::from_headers: split(','), trim, keep what parses as an address
+Code_Addr(fields) ==
+  IF "XffStopAtGarbage" \in Dev
+  THEN LET x == FirstValue(fields, N_XFF)
+           ents == Split(x.v, COMMA)
+           cand == [ i \in 1..Len(ents) |-> Trim(ents[i]) ]
+           bad  == { i \in 1..Len(cand) : ~IsIp(cand[i]) }
+           ips  == SubSeq(cand, 1, IF bad = {} THEN Len(cand) ELSE MinOf(bad) - 1)
+           n    == Len(ips)
+       IN IF ~x.has THEN Direct(peer) ELSE IF n = 0 THEN Direct(peer)
+          ELSE [origin |-> ips[n], proxies |-> SubSeq(ips, 1, n - 1) \o <<peer.ip>>, port |-> peer.port]
+  ELSE AddrGen(fields, peer, "XffUntrimmed" \notin Dev, "XffFirstIsOrigin" \notin Dev)
+
+\* Request::get_cookies: first Cookie field, split(';'), split_once('='), trim
+Code_Cookies(fields) ==
+  IF "CookieLastEq" \in Dev
+  THEN LET c   == FirstValue(fields, N_COOKIE)
+           pcs == Split(c.v, SEMI)
+           prs == SelectSeq(pcs, LAMBDA p : IndexFrom(p, 1, EQS) # 0)
+           LastEq(p) == CHOOSE j \in 1..Len(p) : p[j] = EQS /\ \A k \in (j + 1)..Len(p) : p[k] # EQS
+       IN IF ~c.has THEN <<>>
+          ELSE [ i \in 1..Len(prs) |-> << Trim(SubSeq(prs[i], 1, LastEq(prs[i]) - 1)),
+                                          Trim(SubSeq(prs[i], LastEq(prs[i]) + 1, Len(prs[i]))) >> ]
+  ELSE CookiesOf(fields)
+
 \* empty line: Address::from_headers, then Content-Length decides whether a body is read
 P_EndOfHeaders ==
   /\ pc = "hdr" /\ Buffered > 0 /\ NextLf # 0 /\ FullLine = <<CR, LF>>
-  /\ LET a   == AddrGen(acc.headers, peer, "XffUntrimmed" \notin Dev, "XffFirstIsOrigin" \notin Dev)
+  /\ LET a   == Code_Addr(acc.headers)
          clv == FirstValue(acc.headers, N_CL)
          n   == IF clv.has THEN ParseDec(clv.v) ELSE 0
      IN IF n < 0 THEN acc' = acc /\ need' = 0 /\ pc' = "error"
@@ -214,7 +242,7 @@ P_BodyDirect ==
 \* the value from_stream returns, in the shape of the abstract request (cookies are computed on demand by get_cookies)
 Result == [ok |-> TRUE, method |-> acc.method, path |-> acc.path, query |-> acc.query, version |-> acc.version,
            headers |-> acc.headers, hasBody |-> acc.hasBody, body |-> acc.body, addr |-> acc.addr,
-           cookies |-> CookiesOf(acc.headers), used |-> cons]
+           cookies |-> Code_Cookies(acc.headers), used |-> cons]
 
 (***************************************************************************)
 (* 3. the serialiser and the second parse                                  *)
